@@ -485,6 +485,94 @@ def children_loop(fn: ast.FunctionDef) -> str:
     return ("  cs.filterMap (fun kc => match atI kc.2 d with\n    | some s => some (kc.1, s)\n    | none => none)")
 
 
+_HOLDER_READS = {"self._memory_storage.get(period)": "m", "self._disk_storage.get(period)": "dk"}
+
+
+def holder_lookup(fn: ast.FunctionDef, skip: list) -> str:
+    """`Holder.get_array`: a sequence of `X = <store>.get(period)` / `if T: return E` ending with `return E`, over the two
+    stores.  `m` / `dk` = what the memory / disk store holds for the period, `hasDisk` = truthiness of `_disk_storage`."""
+    env = dict(_HOLDER_READS)
+    def val(n: ast.AST) -> str:
+        if n is None or (isinstance(n, ast.Constant) and n.value is None):
+            return "none"
+        src = ast.unparse(n)
+        if src in env:
+            return env[src]
+        raise NotTranslatable(f"returns `{src[:40]}`")
+    def test(n: ast.AST) -> str:
+        src = ast.unparse(n)
+        if src == "self._disk_storage":
+            return "hasDisk"
+        if src == "not self._disk_storage":
+            return "(!hasDisk)"
+        if isinstance(n, ast.Compare) and len(n.ops) == 1 and isinstance(n.comparators[0], ast.Constant) and n.comparators[0].value is None:
+            x = val(n.left)
+            if isinstance(n.ops[0], ast.IsNot):
+                return f"{x}.isSome"
+            if isinstance(n.ops[0], ast.Is):
+                return f"{x}.isNone"
+        raise NotTranslatable(f"tests `{src[:40]}`")
+    out, closed = "", False
+    for s in fn.body:
+        src = ast.unparse(s)
+        if (isinstance(s, ast.Expr) and isinstance(s.value, ast.Constant)) or any(src.startswith(k) for k in skip):
+            continue
+        if closed:
+            raise NotTranslatable("statement after the final `return`")
+        if isinstance(s, ast.Assign) and len(s.targets) == 1 and isinstance(s.targets[0], ast.Name) and ast.unparse(s.value) in _HOLDER_READS:
+            env[s.targets[0].id] = _HOLDER_READS[ast.unparse(s.value)]
+        elif isinstance(s, ast.If) and not s.orelse and len(s.body) == 1 and isinstance(s.body[0], ast.Return):
+            out += f"  if {test(s.test)} then {val(s.body[0].value)} else\n"
+        elif isinstance(s, ast.Return):
+            out += f"  {val(s.value)}"
+            closed = True
+        else:
+            raise NotTranslatable(f"unexpected statement `{src.splitlines()[0][:60]}`")
+    if not closed:
+        raise NotTranslatable("no final `return`")
+    return out
+
+
+def holder_store_choice(fn: ast.FunctionDef) -> str:
+    """the tail of `Holder._set`: `should_store_on_disk = A and B and C` then `if should_store_on_disk: <disk>.put else: <memory>.put`;
+    `true` = the value goes to the disk store"""
+    asg = [s for s in fn.body if isinstance(s, ast.Assign) and len(s.targets) == 1 and ast.unparse(s.targets[0]) == "should_store_on_disk"]
+    ifs = [s for s in fn.body if isinstance(s, ast.If) and ast.unparse(s.test) in ("should_store_on_disk", "not should_store_on_disk")]
+    if len(asg) != 1 or len(ifs) != 1 or fn.body.index(ifs[0]) != len(fn.body) - 1 or fn.body.index(asg[0]) != len(fn.body) - 2:
+        raise NotTranslatable("`_set` does not end with `should_store_on_disk = …` / `if should_store_on_disk:`")
+    def atom(n: ast.AST) -> str:
+        src = ast.unparse(n)
+        if src == "self._on_disk_storable":
+            return "storable"
+        if src == "self._memory_storage.get(period) is None":
+            return "m.isNone"
+        if src == "self._memory_storage.get(period) is not None":
+            return "m.isSome"
+        if src == "psutil.virtual_memory().percent >= self.simulation.memory_config.max_memory_occupation_pc":
+            return "pressure"
+        if isinstance(n, ast.UnaryOp) and isinstance(n.op, ast.Not):
+            return f"(!{atom(n.operand)})"
+        if isinstance(n, ast.BoolOp):
+            return "(" + (" && " if isinstance(n.op, ast.And) else " || ").join(atom(v) for v in n.values) + ")"
+        raise NotTranslatable(f"unknown condition `{src[:50]}`")
+    cond = atom(asg[0].value)
+    branch = ifs[0]
+    def put(stmts: list) -> str:
+        if len(stmts) == 1:
+            src = ast.unparse(stmts[0])
+            if src == "self._disk_storage.put(value, period)":
+                return "disk"
+            if src == "self._memory_storage.put(value, period)":
+                return "mem"
+        raise NotTranslatable("a branch is not one `put(value, period)`")
+    a, b = put(branch.body), put(branch.orelse)
+    if a == b:
+        raise NotTranslatable("both branches write to the same store")
+    if ast.unparse(branch.test).startswith("not "):
+        a, b = b, a
+    return f"  {cond}" if a == "disk" else f"  (!{cond})"
+
+
 def located_test(fn: ast.FunctionDef, tr: Tr, marker: str) -> str:
     """the test of the one `if … : raise` whose source mentions `marker`, wherever it is nested in the function"""
     found = [n for n in ast.walk(fn) if isinstance(n, ast.If) and marker in ast.unparse(n.test) and not n.orelse
@@ -612,6 +700,13 @@ SPECS = [
          skip=["if period is None:", "if isinstance(period, Period):", "if instant is None:", "instant_str = str(instant)"],
          params="{F : Type} (l : List (Int × F)) (en : Option Int) (o : Int)", typ="Option F",
          fallback="if l.isEmpty then none else\n  if (match en with | some e => decide (o > e) | none => false) then none else\n  match l.reverse.find? (fun f => decide (f.1 ≤ o)) with\n  | some f => some f.2\n  | none => none"),
+    dict(name="holder_get_array", module="GeneratedEngine", file=HOLDER, cls="Holder", func="get_array", kind="holderlookup",
+         skip=["if self.variable.is_neutralized:"],
+         params="{V : Type} (m dk : Option V) (hasDisk : Bool)", typ="Option V",
+         fallback="if m.isSome then m else\n  if hasDisk then dk else\n  none"),
+    dict(name="holder_set_to_disk", module="GeneratedEngine", file=HOLDER, cls="Holder", func="_set", kind="holderstore",
+         params="{V : Type} (storable : Bool) (m : Option V) (pressure : Bool)", typ="Bool",
+         fallback="(storable && m.isNone && pressure)"),
     dict(name="period_text_finer_refused", file="openfisca_core/periods/helpers.py", cls=None, func="period", kind="located",
          marker="unit_weight(period.unit)", vocab={"period.unit": ("base", "unit"), "unit": ("u", "unit")},
          params="(u base : DUnit)", typ="Bool",
@@ -668,7 +763,7 @@ TIED_TO = {
     "period_size_in_years": ["C04"], "period_size_in_months": ["C04"], "period_size_in_days": ["C04"], "period_size_in_weeks": ["C04"],
     "period_size_in_weekdays": ["C04"], "period_get_subperiods": ["C04", "C03"], "period_text_finer_refused": ["C05"],
     "holderSet_raises": ["C03", "C16"], "holderSetInput_refuses": ["C16"], "parameter_get_at_instant": ["C06"], "node_at_instant_children": ["C06"],
-    "checkForCycle": ["C01", "C02"], "variable_get_formula": ["C01"], "rate_add_bracket": ["C08", "C09"], "amount_add_bracket": ["C08", "C09"],
+    "checkForCycle": ["C01", "C02"], "variable_get_formula": ["C01"], "holder_get_array": ["C17"], "holder_set_to_disk": ["C17"], "rate_add_bracket": ["C08", "C09"], "amount_add_bracket": ["C08", "C09"],
 }
 
 
@@ -757,6 +852,16 @@ def translate(repo: str, module: str = "GeneratedGuards") -> tuple[str, dict]:
                 typ = sp["typ"]
                 doc = (f"`{sp['cls']}.{sp['func']}` ({sp['file']}): the loop over `node.children.items()` — each child read with "
                        "`_get_at_instant` (`atI`), kept under its name when the result is not None, in dict order")
+            elif sp["kind"] == "holderlookup":
+                body = holder_lookup(fn, sp["skip"])
+                typ = sp["typ"]
+                doc = (f"`{sp['cls']}.{sp['func']}` ({sp['file']}): the lookup through the two stores, statement by statement; `m` / `dk` = what the "
+                       "memory / disk store holds for the period, `hasDisk` = truthiness of `_disk_storage`")
+            elif sp["kind"] == "holderstore":
+                body = holder_store_choice(fn)
+                typ = sp["typ"]
+                doc = (f"the tail of `{sp['cls']}.{sp['func']}` ({sp['file']}): `should_store_on_disk` and the branch that writes; `true` = the value "
+                       "goes to the disk store; `pressure` = `psutil…percent >= max_memory_occupation_pc`")
             elif sp["kind"] == "dispatch":
                 chain = dispatch_chain(fn, tr, sp["leaf"])
                 body = _dispatch_to_lean(chain)
